@@ -66,6 +66,9 @@ FILE* vp_fopen_write(void) { g_written = true; return fopen(tmp_name(), "wb"); }
 const char* vp_file_name(void) { if (!g_written) commit(); return tmp_name(); }
 int vp_file_is_open(void) { return 0; }
 static std::ifstream g_ifs;
+static std::ofstream g_ofs;
+void* vp_ostream(void) { g_written = true; if (g_ofs.is_open()) g_ofs.close(); g_ofs.clear(); g_ofs.open(tmp_name(), std::ios::binary | std::ios::trunc); return static_cast<std::ostream*>(&g_ofs); }
+void vp_ostream_done(void) { if (g_ofs.is_open()) g_ofs.close(); }
 void* vp_istream(void) { if (!g_written) commit(); if (g_ifs.is_open()) g_ifs.close(); g_ifs.clear(); g_ifs.open(tmp_name(), std::ios::binary); return static_cast<std::istream*>(&g_ifs); }
 }
 int main(int argc, char** argv) {
